@@ -175,7 +175,8 @@ class Engine(ExprMixin, CallMixin, ContractMixin, BuiltinMixin, StmtMixin, LoopM
         if z3.is_int_value(tv):
             return [tv.as_long()]
         s = z3.Solver()
-        s.set("timeout", 5000)
+        # generous: a timeout here would turn into "outside the subset" (undecided) and must not depend on machine load
+        s.set("timeout", 60000)
         s.add(*st.pc)
         s.add(*st.guards)
         vals = []
